@@ -11,6 +11,11 @@ ASSUMPTIONS = ["the tree under check contains fixes/D40.patch (checked counter i
                "the factory's 32-bit participant counter (also made checked by the patch) cannot be driven to its rail by a test: that line is covered by reading and by the model only"]
 PROFILE = Profile(loops=35, nops=(6, 28), weights={"inst": 2, "probe": 6, "handle": 5})
 CORPUS = [
+    # exemplar of the seeded change seed_C35_c (find_topic takes the counter value AFTER its increment): a topic created
+    # right after a found one must not get the found topic's handle
+    ["participant P", "participant Q", "topic q1 Q T1 ki", "advance 100000000", "topic a P A ki", "find-topic f P T1 ki",
+     "topic b P B kb", "handle a", "handle f", "handle b", "find-topic f2 P T1 ki", "delete f", "find-topic f3 P T1 ki",
+     "topic c P C ni", "handle f3", "handle c"],
     # regression for D40 (fixed): the 256th publisher of a participant is refused with OutOfResources, nothing dies
     ["participant P", "repeat 258 publisher b%i P", "probe P", "probe b254", "delete b0", "publisher again P", "subscriber s P", "handle s"],
     ["participant P", "repeat 255 subscriber s%i P ; delete s%i", "subscriber last P", "probe P"],
@@ -35,8 +40,8 @@ def run(ctx):
     r = ctx.rng
     n = 90 if ctx.tier == "quick" else 800
     cases = [Case(list(c)) for c in CORPUS]
-    for _ in range(n):
-        cases.append(gen_case(r, PROFILE))
+    for k in range(n):
+        cases.append(find_case(r) if k % 5 == 4 else gen_case(r, PROFILE))
     if ctx.tier == "thorough":
         # the 16-bit counters: 65 536 writers / readers / topics of one participant 
         # (entities are created not-enabled: nothing is announced, a create+delete costs about 1 ms instead of 10)
